@@ -4,6 +4,7 @@ package main
 // (The termination rules of C15 — BYE answered, NOTIFY terminated — run through the same history.)
 
 import (
+	"MODULEPATH/zzverif/faketime"
 	"MODULEPATH/zzverif/rt"
 )
 
@@ -263,5 +264,62 @@ func VC15_Termination() {
 	} else {
 		rt.Assert(got == (idx+1)%NB, "after termination the dialog's requests are load-balanced like new ones")
 	}
+	rt.Reach("end")
+}
+
+// VC15_Refresh: every establishing response (re)starts the pin's lifetime. A first response with both tags
+// (18x or 2xx) pins the dialog; later, still inside that lifetime, the same backend sends another establishing
+// response of the dialog — the 2xx after the 18x, a retransmitted 2xx, or the 2xx of a re-INVITE — with or without
+// Expires. From that second response on the pin is honoured for max(dialog timeout, its Expires).
+func VC15_Refresh() {
+	L, NB := rt.Param("L"), rt.Param("NB")
+	T := rt.Int("T", 1, 3600)
+	w := newWorld(worldOpts{nBackends: NB, dialogTimeout: int64(T)})
+	d := genDlg(L)
+	b := establish(w, d, rt.Int("status1", 180, 200))
+	if b < 0 {
+		return
+	}
+	dt1 := rt.Int("dt1_s", 0, 3600)
+	rt.Assume(dt1 < T) // the first pin is certainly still alive
+	faketime.Advance(faketime.Duration(dt1) * 1000000000)
+	e2, exp := 0, ""
+	if rt.Bool("second-expires") {
+		e2 = rt.Int("second-expires-value", 0, 100000)
+		exp = "Expires: " + itoa(e2) + "\r\n"
+	}
+	var resp string
+	if rt.Bool("re-invite") {
+		// a re-INVITE of the dialog (follows the pin) and its 2xx
+		before := counts(w)
+		rt.Assert(w.deliver(c04Request("INVITE", d, rt.Bool("from-callee"), true, ""), "10.0.2.2", 5060, true), "re-INVITE decodes")
+		got, n := newSends(w, before)
+		rt.Assert(n == 1 && got == b, "the re-INVITE follows the pin")
+		if n != 1 || got != b {
+			return
+		}
+		m := refRead(w.bs[b].sent[len(w.bs[b].sent)-1])
+		resp = "SIP/2.0 200 OK\r\n" + viaEcho(w.bs[b].sent[len(w.bs[b].sent)-1]) + "From: " + m.first("from") + "\r\nTo: " + m.first("to") +
+			"\r\nCall-ID: " + d.callID + "\r\nCSeq: 2 INVITE\r\n" + exp + "Content-Length: 0\r\n\r\n"
+	} else {
+		resp = "SIP/2.0 200 OK\r\n" + viaEcho(w.bs[b].sent[len(w.bs[b].sent)-1]) +
+			"From: <" + d.furi + ">;tag=" + d.ftag + "\r\nTo: <" + d.turi + ">;tag=" + d.ttag + "\r\nCall-ID: " + d.callID + "\r\nCSeq: 1 INVITE\r\n" + exp + "Content-Length: 0\r\n\r\n"
+	}
+	rt.Assert(w.deliver(resp, "10.0.1."+itoa(b+1), 5060, true), "second establishing response decodes")
+	life := T
+	if e2 > T {
+		life = e2
+	}
+	dt2 := rt.Int("dt2_s", 0, 100000)
+	rt.Assume(dt2 < life)
+	faketime.Advance(faketime.Duration(dt2) * 1000000000)
+	idx := rt.Int("rotation", 0, 1000000)
+	rt.Assume((idx+1)%NB != b)
+	w.rr.index = idx
+	before := counts(w)
+	rt.Assert(w.deliver(c04Request("INFO", d, false, true, ""), "10.0.2.2", 5060, true), "probe decodes")
+	got, n := newSends(w, before)
+	rt.Assert(n == 1, "probe delivered exactly once")
+	rt.Assert(got == b, "the pin is honoured for max(dialog timeout, Expires) counted from the latest establishing response")
 	rt.Reach("end")
 }
